@@ -120,12 +120,14 @@ class ChannelItem(EFLRItem, DimensionedItem):
 
         # what was derived from the data at a previous write describes that data, not necessarily the current one
         # (unless the user has assigned the attribute since then: that value is theirs)
-        for derived, n_assignments in self._derived_from_data.items():
+        for derived, n_assignments in list(self._derived_from_data.items()):
+            if derived == 'long_name':
+                continue  # (a default, not derived from the data: see _run_checks_and_set_defaults)
             if derived == 'cast_dtype':
                 self._set_cast_dtype(None)
             elif getattr(self, derived)._assignments['value'] == n_assignments:
                 getattr(self, derived)._value = None
-        self._derived_from_data.clear()
+            del self._derived_from_data[derived]
 
         sub_data = data[self.name]
         self._set_dimension_from_data(sub_data)
@@ -213,9 +215,14 @@ class ChannelItem(EFLRItem, DimensionedItem):
 
         self._check_axis_vs_dimension()
 
+        if self._derived_from_data.pop('long_name', None) == self.long_name._assignments['value']:
+            # the long name is the default given at a previous write (the name the channel had then), not the user's
+            self.long_name._value = None
+
         if not self.long_name.value:
             logger.debug(f"Long name of channel '{self.name}' not specified; setting it to to the channel's name")
             self.long_name.value = self.name
+            self._derived_from_data['long_name'] = self.long_name._assignments['value']
 
 
 class ChannelSet(EFLRSet):
